@@ -421,11 +421,13 @@ def p5(ctx, rep):
     `seen.insert(<its own key>)` succeeded — the visited-set discipline that bounds the recursion depth by the number of
     items.  Without it a type that reaches itself through two fields recurses until the stack overflows (process abort,
     no diagnostic).  Structural recursion on a finite type tree (container arms of get_dependencies_from_type) needs no guard."""
-    fns = [f for f in ctx.fns(file='topsort.rs') if any('HashSet<String>' in str(q.get('ty') or '') for q in f['params'])]
+    from .. import inline
+    # views of the collectors; helper functions no rule knows are seen inside their callers (with the callers' guards)
+    fns = [f for f in inline.file_views(ctx, 'topsort.rs') if any('HashSet<String>' in str(q.get('ty') or '') for q in f['params'])]
     names = {f['name'] for f in fns}
     n = 0
     for f in fns:
-        fx = ctx.x(f)
+        fx = f
         seen_p = next(q['name'] for q in f['params'] if 'HashSet<String>' in str(q.get('ty') or ''))
         for c in fx['calls']:
             cal = str(c.get('f') or '').split('::')[-1]
@@ -448,7 +450,7 @@ def p5(ctx, rep):
                 return hit and not fr.get('neg')
             ok = any(fr.get('k') == 'if' and guards(fr) for fr in c['guard'])
             rep.check(ok, 'P5', f"{f['name']}->{cal}:visited-guard", f'entered only after {seen_p}.insert(..) succeeded', f"{f['name']} recurses into {cal} without first recording itself in `{seen_p}` (`if {seen_p}.insert(<own id>)`): a type that reaches itself through the item table (self-referential struct with two such fields, mutually recursive types) is walked again and again until the stack overflows — typeshare aborts without output or diagnostic", {'file': f['file'], 'line': c.get('line')})
-    rep.floor('P5', 'recursive collector calls through the item table', n, 5)
+    rep.floor('P5', 'recursive collector calls through the item table', n, 3)
 
 
 def p4(ctx, prog, rep):
